@@ -33,6 +33,7 @@ type Prog struct {
 	LimeT *types.Package
 	CG    *callgraph.Graph
 
+	Inl     *inliner          // what the helper normalisation did (inline.go)
 	alias   map[string]string // role name (pinned identifier) → identifier in the current tree, see names.go
 	fns     []*ssa.Function   // all source functions (incl. anonymous) of lime and chat, sorted by position
 	nFuncs  int
@@ -90,9 +91,20 @@ func loadProg(root, tags string, env []string) (*Prog, error) {
 	if p.Chat == nil {
 		return nil, fmt.Errorf("load: package %s not found under %s", chatPath, root)
 	}
+	curProg = p
+	p.resolveAliases()
+	if !noInline {
+		p.Inl = p.inlineHelpers(p.pinnedPredicate())
+		if len(p.Inl.errs) > 0 {
+			return nil, fmt.Errorf("normalisation produced ill-formed SSA: %s", strings.Join(p.Inl.errs, "; "))
+		}
+	}
 	all := ssautil.AllFunctions(prog)
 	p.CG = vta.CallGraph(all, cha.CallGraph(prog))
 	for fn := range all {
+		if p.Inl != nil && (p.Inl.dead[fn] || p.Inl.dead[topLevelRaw(fn)] && fn.Parent() != nil && false) {
+			continue
+		}
 		if fn.Pkg == p.Lime || fn.Pkg == p.Chat {
 			if fn.Synthetic != "" && fn.Blocks == nil {
 				continue
@@ -134,8 +146,17 @@ func (p *Prog) LimeFuncs() []*ssa.Function {
 
 func (p *Prog) AllFuncs() []*ssa.Function { return p.fns }
 
-// Type looks up a named type of package lime.
 var curProg *Prog
+var noInline bool
+
+func topLevelRaw(fn *ssa.Function) *ssa.Function {
+	for fn.Parent() != nil {
+		fn = fn.Parent()
+	}
+	return fn
+}
+
+// Type looks up a named type of package lime.
 
 func (p *Prog) Type(name string) *types.Named {
 	if al := p.aliasOf("type", name); al != "" {
